@@ -483,8 +483,14 @@ func tieBreakCase(k *mon.Case) {
 		f      func(b *blockchain.Block)
 	}
 	all := []tm{
-		{"root-mismatch:transactionRoot", true, func(b *blockchain.Block) { b.Header.TransactionRoot = flip(b.Header.TransactionRoot, r.Intn(256)); reseal(n, b, key) }},
-		{"root-mismatch:assetRoot", true, func(b *blockchain.Block) { b.Header.AssetRoot = flip(b.Header.AssetRoot, r.Intn(256)); reseal(n, b, key) }},
+		{"root-mismatch:transactionRoot", true, func(b *blockchain.Block) {
+			b.Header.TransactionRoot = flip(b.Header.TransactionRoot, r.Intn(256))
+			reseal(n, b, key)
+		}},
+		{"root-mismatch:assetRoot", true, func(b *blockchain.Block) {
+			b.Header.AssetRoot = flip(b.Header.AssetRoot, r.Intn(256))
+			reseal(n, b, key)
+		}},
 		{"payload:transaction-dropped-root-unchanged", true, func(b *blockchain.Block) { b.Transactions = b.Transactions[1:] }},
 		{"payload:transaction-added-root-unchanged", true, func(b *blockchain.Block) {
 			b.Transactions = append(b.Transactions, n.NewTx(n.Universe[0], 7, 5000, node.TxVerifyOK, node.TxExecOK, 3))
